@@ -540,6 +540,20 @@ class Explorer(object):
                                     res.edges_pruned += 1
                                     continue
                                 nf = frozenset(cand)
+                            # boolean alias: `flag = <comparison>` earlier, now `if flag:` -> the comparison itself
+                            if lit[0] == 'truthy':
+                                extra = None
+                                for l in nf:
+                                    if l[0] == 'eq':
+                                        other = l[2] if l[1] == lit[1] else (l[1] if l[2] == lit[1] else None)
+                                        if other is not None and isinstance(other.node, (ast.Compare,)) and not other.volatile:
+                                            extra = self.tb.literal(other.node, lit[2])
+                                if extra is not None and extra not in nf:
+                                    cand = nf | {extra}
+                                    if not _sat_relevant(cand, extra):
+                                        res.edges_pruned += 1
+                                        continue
+                                    nf = frozenset(cand)
                 if relevant is not None:
                     nf = frozenset(l for l in nf if relevant(l))
                 c2 = ncnt_exc if is_exc else ncnt
